@@ -286,6 +286,8 @@ func C09(ctx *core.Ctx) error {
 		cc := cases[i]
 		switch r.Status {
 		case "ok":
+		case "skipped":
+			continue
 		case "harness-error":
 			return core.Inconcl("case %s: %s", cc.ID(), r.Detail)
 		case "hang":
